@@ -120,6 +120,9 @@ def _perf_cases(tier):
     # the pedal on a track of its own: a part that holds control changes and not a single note
     cases.append(("a_part_with_controls_and_no_note", [dict(notes=[(60, 0.5, 1.0, 64, 0), (64, 1.0, 1.5, 70, 0)], controls=[], programs=[]),
                                                         dict(notes=[], controls=[(64, 0.2, 127), (64, 0.9, 0), (67, 0.4, 50)], programs=[])]))
+    # an instrument set-up track: a part that holds program changes and neither a note nor a control change
+    cases.append(("a_part_with_program_changes_only", [dict(notes=[(60, 0.5, 1.0, 64, 1), (64, 1.0, 1.5, 70, 2)], controls=[], programs=[(0.0, 0, 1), (0.0, 0, 2)]),
+                                                        dict(notes=[], controls=[], programs=[(0.0, 41, 1), (0.25, 73, 2), (1.0, 19, 1)])]))
     if tier == "thorough":
         cases.append(("three_tracks", [dict(notes=[(60 + i, 0.1 * i, 0.1 * i + 0.3, 10 + i, i)], controls=[(64, 0.05 * i, i)], programs=[]) for i in range(3)]))
         cases.append(("short_notes", [dict(notes=[(60, 1.0, 1.0003, 64, 0), (61, 1.0, 1.002, 64, 0), (62, 2.0, 2.0, 64, 0)], controls=[], programs=[])]))
